@@ -181,6 +181,11 @@ class DynWorld(World):
             from .dyn_newton import NewtonDyn
 
             return {"actor": "HyperElastic", "newton": NewtonDyn.gen_newton_config(rng, tier), "nops": int(rng.integers(8, 26)), "faults": bool(faults)}
+        if rng.random() < 0.12:
+            # frames of beams (rotational inertia, connections = Lagrange conditions) under the hyperbolic schemes
+            from .dyn_beam import BeamDyn
+
+            return {"actor": "Beam", "beamdyn": BeamDyn.gen_beamdyn_config(rng, tier), "nops": int(rng.integers(10, 36)), "faults": bool(faults)}
         actor = cls.ACTORS[int(rng.integers(len(cls.ACTORS)))]
         dim = 2
         cands = [n for n in meshlib.names(dim=2) if lib[n].Nn <= (25 if tier == "quick" else 40) and lib[n].main[0][0] in ("TRI3", "QUAD4", "TRI6", "QUAD8")]
@@ -209,6 +214,19 @@ class DynWorld(World):
 
             try:
                 self.newton = NewtonDyn(cfg, ctx, self.solver)
+            except BaseException:
+                self.close()
+                raise
+            self.gen_op = self.newton.gen_op
+            self.apply = self.newton.apply
+            self.observe = self.newton.observe
+            self.abstract_state = self.newton.abstract_state
+            return
+        if "beamdyn" in cfg:
+            from .dyn_beam import BeamDyn
+
+            try:
+                self.newton = BeamDyn(cfg, ctx, self.solver)
             except BaseException:
                 self.close()
                 raise
